@@ -43,6 +43,7 @@ type Prog struct {
 	// InlinedHelpers lists the functions that do not exist in the reviewed tree and whose calls were replaced by
 	// their bodies in the analysed SSA form (see inline.go).
 	InlinedHelpers []string
+	InlineFailure  string // non-empty if the inlining had to be abandoned
 }
 
 //go:embed baseline_funcs.txt
@@ -134,8 +135,25 @@ func Load(repo string, overlay map[string][]byte) *Prog {
 	prog.Build()
 	p.SSA = prog
 	if os.Getenv("DBLINT_NOINLINE") == "" {
-		p.InlinedHelpers = p.InlineNewHelpers(BaselineFuncs())
-		p.modFuncs = nil
+		failed := ""
+		func() {
+			defer func() {
+				if e := recover(); e != nil {
+					failed = fmt.Sprint(e)
+				}
+			}()
+			p.InlinedHelpers = p.InlineNewHelpers(BaselineFuncs())
+			p.modFuncs = nil
+		}()
+		if failed != "" {
+			// the edited SSA form cannot be trusted: analyse the program as it was built
+			fmt.Fprintf(os.Stderr, "note: inlining of new helpers failed (%s); analysing the program without it\n", failed)
+			os.Setenv("DBLINT_NOINLINE", "1")
+			q := Load(repo, overlay)
+			os.Unsetenv("DBLINT_NOINLINE")
+			q.InlineFailure = failed
+			return q
+		}
 	}
 	return p
 }
